@@ -39,6 +39,11 @@ package objecttemplate
 // namespaced ObjectTemplate it is placed in the template's namespace
 //@ func package-operator.run/internal/controllers/objecttemplate.(*templateReconciler).templateObject
 //@   ghost tplOK(object) := result == nil
+//@   ghost renderedLbl() := lbl(object)
+//@   ghost renderedLblHas() := lblHas(object)
+//@   ghost renderedAnn() := ann(object)
+//@   ghost renderedAnnHas() := annHas(object)
+//@   ensures [C18] renderedLbl() == lbl(object) && renderedLblHas() == lblHas(object) && renderedAnn() == ann(object) && renderedAnnHas() == annHas(object)
 //@   ensures [C18] tplOK(object) == (result == nil)
 //@   ensures [C18] result == nil && len(ns(clientObj(objectTemplate))) > 0 ==> ns(object) == ns(clientObj(objectTemplate))
 //@   ensures missingOpt() == old(missingOpt()) && sourcesOK() == old(sourcesOK())
@@ -62,4 +67,7 @@ package objecttemplate
 // the template's namespace; a missing optional source makes the pass ask for the optional-source retry
 //@ func package-operator.run/internal/controllers/objecttemplate.(*templateReconciler).Reconcile
 //@   sink Writer.Update#1 requires [C18] sourcesOK() && tplOK(arg1) && (len(ns(clientObj(objectTemplate))) > 0 ==> ns(arg1) == ns(clientObj(objectTemplate)))
+// on update, labels and annotations produced by the template win over what the live object carries
+//@   sink Writer.Update#1 requires [C18] forall k string :: renderedLblHas()[k] ==> lblHas(arg1)[k] && lbl(arg1)[k] == renderedLbl()[k]
+//@   sink Writer.Update#1 requires [C18] forall k string :: renderedAnnHas()[k] ==> annHas(arg1)[k] && ann(arg1)[k] == renderedAnn()[k]
 //@   ensures [C18] sourcesOK() && missingOpt() > old(missingOpt()) ==> res.RequeueAfter == old(r.optionalResourceRetryInterval)
